@@ -281,9 +281,24 @@ def baseline_deselect():
     return ids
 
 
+_ANCHORED_IN = {}
+
+
+def props_anchored_in(rel):
+    if not _ANCHORED_IN:
+        for line in open(ROOT / "properties.jsonl"):
+            p = json.loads(line)
+            for f in p["anchors"]["files"]:
+                _ANCHORED_IN.setdefault(f, []).append(p["id"])
+    return _ANCHORED_IN.get(rel, [])
+
+
 def run_one(prop, m, jobs, suite, desel, extra_props):
     tmp = Path(tempfile.mkdtemp(prefix="vfam-"))
     rec = dict(m, property=prop)
+    if extra_props == ["AUTO"]:
+        extra_props = [p for p in props_anchored_in(m["file"]) if p != prop]
+    rec["checks_tried"] = [prop, *extra_props]
     try:
         shutil.copytree("/repo/src", tmp / "src", ignore=shutil.ignore_patterns("__pycache__"))
         f = tmp / m["file"]
